@@ -1,4 +1,4 @@
 SPECIFICATION GSpec
 CONSTANTS
-  Families = {"A", "C1", "E", "K"}
+  Families = {"A", "C1", "E", "K", "R"}
 CHECK_DEADLOCK FALSE
